@@ -435,9 +435,13 @@ class ReaderModel:
         return f"{show(term)}[{i}]"
 
 
-def header_gate(eng: Engine, ctx: Ctx, rid: str, model: ReaderModel | None = None):
+def header_gate(eng: Engine, ctx: Ctx, rid: str, model: ReaderModel | None = None, mode: str = "exact"):
+    """mode 'exact': the gate is exactly the standard's cube (C01: nothing else may be attempted as a frame).
+    mode 'not-stricter': the gate must not reject a standard header (C02, C05: valid frames are attempted); a weaker gate is C01's concern.
+    In both modes the returned facts are the *standard's* cube when mode != 'exact' (valid-header assumption of those properties)."""
     ctx.rule(rid, "the unique call of the frame assembler is guarded by exactly the cube byte1 = 0xD3 ∧ byte2.b7..b2 = 0 "
-                  "(bit-provenance normal form of the dominating conditions); who-may-call: one site")
+                  "(bit-provenance normal form of the dominating conditions); who-may-call: one site"
+                  + ("" if mode == "exact" else " [evaluated here in the weaker form: the gate rejects no header the standard allows]"))
     fr = oracle("frames.json")["rtcm3"]
     m = model or ReaderModel(eng)
     f = m.read
@@ -477,6 +481,9 @@ def header_gate(eng: Engine, ctx: Ctx, rid: str, model: ReaderModel | None = Non
             continue  # infeasible disjunct
         missing = {k: v for k, v in want.items() if facts.get(k) != v}
         extra = {k: v for k, v in facts.items() if k not in want}
+        conflicting = {k: v for k, v in facts.items() if k in want and want[k] != v}
+        if mode != "exact":
+            missing = conflicting  # a weaker gate still attempts every valid frame
         if missing:
             ctx.bad(rid, f.qualname, "header gate", expected=m.bvc.render_cube(want), found=m.bvc.render_cube(facts) or "no bit constraints",
                     detail="gate admits headers the standard excludes: unconstrained " + ", ".join(m.bvc.syms.render(k) for k in sorted(missing))[:160], **loc)
@@ -486,7 +493,10 @@ def header_gate(eng: Engine, ctx: Ctx, rid: str, model: ReaderModel | None = Non
         else:
             ctx.ok(rid, f.qualname, "header gate", found=m.bvc.render_cube(facts), **loc)
         facts_all = facts if facts_all is None else {k: v for k, v in facts_all.items() if facts.get(k) == v}
-    ctx.instance("gate bit constraints", len(facts_all or {}), 14)
+    if mode == "exact":
+        ctx.instance("gate bit constraints", len(facts_all or {}), 14)
+    else:
+        facts_all = dict(want)  # the property is about valid headers: reason under the standard's cube
     # argument handed to the assembler: the two header bytes in order
     arg = call.term[3][0] if call.term[3] else None
     segs = m.cat.to_cat(arg) if arg is not None else None
@@ -672,6 +682,30 @@ def read_primitive_contract(eng: Engine, ctx: Ctx, rid: str):
     return n
 
 
+def declared_length_slice(arg, msg, fr) -> bool:
+    """arg == msg[3 : 3 + L] with L the 10-bit big-endian length field of msg (bytes 1..2): equal to msg[3:-3] on every
+    frame whose length field matches its size (all frames the reader assembles, all canonical frames)."""
+    hb = fr["header_bytes"]
+    if not (arg is not None and arg[0] == "slice" and arg[1] == msg and arg[2] == ("const", hb) and arg[4] == ("const", None)):
+        return False
+    hi = arg[3]
+    L = None
+    if hi[0] == "bin" and hi[1] == "+":
+        if hi[2] == ("const", hb):
+            L = hi[3]
+        elif hi[3] == ("const", hb):
+            L = hi[2]
+    if L is None:
+        return False
+    bvc = BVContext()
+    bvc.cat = CatContext()
+    bv = bvc.to_bv(L)
+    from ..domains import BV as _BV
+
+    want = [bvc.syms.bit(f"{show(msg)}[2].b{k}") for k in range(8)] + [bvc.syms.bit(f"{show(msg)}[1].b{k}") for k in range(fr["length_bits"] - 8)]
+    return bv_equal(bv, _BV(want))
+
+
 def payload_slice(eng: Engine, ctx: Ctx, rid: str):
     ctx.rule(rid, "the constructor receives message[3:-3]: frame minus 3 header and 3 CRC bytes")
     fr = oracle("frames.json")["rtcm3"]
@@ -687,7 +721,8 @@ def payload_slice(eng: Engine, ctx: Ctx, rid: str):
             kw = dict(e.term[4])
             arg = e.term[3][0] if e.term[3] else kw.get("payload")
             segs = cat.to_cat(arg) if arg is not None else None
-            ctx.check(segs == [("src", msg, hb, ("neg", cb))], rid, f.qualname, "constructor payload argument", expected=f"{f.params[0]}[{hb}:-{cb}]", found=cat.render(segs) if segs else (show(arg)[:80] if arg else "none"), **eng.loc(f, e.node))
+            okslice = segs == [("src", msg, hb, ("neg", cb))] or declared_length_slice(arg, msg, fr)
+            ctx.check(okslice, rid, f.qualname, "constructor payload argument", expected=f"{f.params[0]}[{hb}:-{cb}] (or the equivalent [{hb}:{hb}+<declared 10-bit length>])", found=cat.render(segs) if segs else (show(arg)[:80] if arg else "none"), **eng.loc(f, e.node))
     rets = [e for e in se.effects if e.kind == "return"]
     for e in rets:
         n += 1
